@@ -210,6 +210,6 @@ fn main() {
     meta.push(serde_json::json!({"case": case_no, "events": evs_json, "final_contents": final_c, "final_error": final_err,
       "nt": true}));
   }
-  let files = write_cases(&args.out, "From SL Require Import Core.Model C02.Model.", "case02", "check_case", &cases, 50);
+  let files = write_cases(&args.out, "From SL Require Import Core.Model C02.Model C02.History.", "case02", "check_case_h", &cases, 50);
   write_json(&args.out, "cases.json", &serde_json::json!({"files": files, "cases": meta, "distribution": dist}));
 }
